@@ -16,9 +16,10 @@ import (
 func runC09(c *rt.C) {
 	r := c.Rng
 	mem := memModes()[c.Index%3]
-	kv := (c.Index/3)%2 == 1
+	kv := (c.Index/3)%3 == 1
+	rev := (c.Index/3)%3 == 2
 	nKeys := pick(r, 3, 5, 8, 12, 20, 40)
-	db := OpenDB(DBOpt{Mem: mem, KV: kv})
+	db := OpenDB(DBOpt{Mem: mem, KV: kv, Rev: rev})
 	h := BuildHistory(r, db, HistOpt{NKeys: nKeys, Epochs: 3 + r.Intn(6), OpsPerEpoch: nKeys + r.Intn(2*nKeys), KeepProb: 0.6, Writers: 1 + r.Intn(2)})
 	maxv, total := h.PhysicalVersions()
 	targets := h.seekTargets()
@@ -126,7 +127,7 @@ func runC09(c *rt.C) {
 				t := targets[r.Intn(len(targets))]
 				it.Seek(t)
 				k := h.keyOfSeek(t)
-				idx = lowerBound(hs.Want, k)
+				idx = lowerBound(db, hs.Want, k)
 				trace = append(trace, fmt.Sprintf("Seek(%q)", k))
 				cls := "gap"
 				if idx < len(hs.Want) && hs.Want[idx].Key == k {
